@@ -77,7 +77,7 @@ def _src(t, names):
         return '(%s if %s < 128 else %s - 256)' % (x, x, x)
     if k == 'tuple':
         return '(' + ', '.join(_src(x, names) for x in t[1:]) + ',)'
-    raise ValueError('cannot fold ' + k)
+    raise ValueError('cannot fold %r' % (k,))
 
 def compile_term(t, atom_list):
     names = {a: 'v%d' % i for i, a in enumerate(atom_list)}
